@@ -1,3 +1,359 @@
-pub(crate) fn run(_args: &engine::Args) -> i32 {
-    engine::machinery_failure("not implemented")
+//! C25 - a server query batch is all-or-nothing and audited exactly.
+//!
+//! Batches = every list of <= L queries (quick L=2, thorough L=3) over
+//!   insert node | insert alias on `:0` | insert value k=1 on `:0` | read (select root)
+//!   | failing read (missing id) | failing write (edge to a missing node)
+//!   | reference `:7` (out of bounds)
+//! submitted through `exec` and `exec_mut`; every sequence of <= 2 such
+//! requests (first by the owner usr1, second by usr2 who holds the write role;
+//! thorough additionally: second request through the admin endpoints) from a
+//! base world with one database usr1/db1 holding a node `root` with k=0.
+//!
+//! Oracle after every request (timestamps ignored):
+//!   not 2xx  => the database content and its audit log are unchanged
+//!   2xx      => the content equals the reference database after applying the
+//!               batch in order (reference: agdb DbMemory, batch applied to a
+//!               copy, kept only if every query succeeded; `:N` = ids of result
+//!               N as documented), and the audit log grew by exactly the
+//!               batch's mutating queries, in order, with the caller's name.
+//! A batch the reference cannot apply but the server answers 2xx is a violation
+//! (some query failed, yet the batch counts as applied).
+
+use crate::vh::lab::{Base, Lab, Req, Setup, reqs_from_json, reqs_to_json};
+use crate::vh::refdb::{RefDb, is_mutating, kind_of};
+use agdb::{QueryBuilder, QueryType};
+use agdb_api::Queries;
+use engine::{Args, DistinctCounter, Report, Tier};
+use serde_json::{Value, json};
+use std::collections::BTreeSet;
+use std::sync::atomic::{AtomicU64, Ordering};
+
+fn query_alphabet() -> Vec<(&'static str, QueryType)> {
+    vec![
+        ("insert-node", QueryBuilder::insert().nodes().count(1).query().into()),
+        ("insert-alias-on-:0", QueryBuilder::insert().aliases("a").ids(":0").query().into()),
+        ("insert-value-on-:0", QueryBuilder::insert().values([[("k", 1).into()]]).ids(":0").query().into()),
+        ("read-root", QueryBuilder::select().ids("root").query().into()),
+        ("failing-read", QueryBuilder::select().ids(999).query().into()),
+        ("failing-write", QueryBuilder::insert().edges().from("root").to(999).query().into()),
+        ("reference-:7", QueryBuilder::select().ids(":7").query().into()),
+    ]
+}
+
+fn initial_queries() -> Vec<QueryType> {
+    vec![QueryBuilder::insert().nodes().aliases("root").values([[("k", 0).into()]]).query().into()]
+}
+
+fn base_world() -> Base {
+    let init = serde_json::to_value(Queries(initial_queries())).unwrap();
+    Base::build(
+        "c25-db1-owner-usr1-writer-usr2",
+        &[
+            Setup::AddUser("usr1"),
+            Setup::AddUser("usr2"),
+            Setup::Login("usr1", "usr1"),
+            Setup::Login("usr2", "usr2"),
+            Setup::Call("usr1", "POST", "/db/usr1/db1/add?db_type=mapped".to_string(), None),
+            Setup::Call("usr1", "POST", "/db/usr1/db1/exec_mut".to_string(), Some(init)),
+            Setup::Call("usr1", "PUT", "/db/usr1/db1/user/usr2/add?db_role=write".to_string(), None),
+        ],
+    )
+}
+
+/// all index lists of length <= max over 0..n
+fn batches(n: usize, max: usize) -> Vec<Vec<usize>> {
+    let mut out: Vec<Vec<usize>> = vec![vec![]];
+    let mut last: Vec<Vec<usize>> = vec![vec![]];
+    for _ in 0..max {
+        let mut next = vec![];
+        for b in &last {
+            for i in 0..n {
+                let mut c = b.clone();
+                c.push(i);
+                next.push(c);
+            }
+        }
+        out.extend(next.iter().cloned());
+        last = next;
+    }
+    out
+}
+
+#[derive(Clone)]
+struct Item {
+    endpoint: &'static str, // exec | exec_mut | admin-exec | admin-exec_mut
+    batch: Vec<usize>,
+}
+
+fn make_req(caller: &str, item: &Item, alpha: &[(&'static str, QueryType)]) -> Req {
+    let qs = Queries(item.batch.iter().map(|i| alpha[*i].1.clone()).collect());
+    let uri = match item.endpoint {
+        "exec" => "/db/usr1/db1/exec",
+        "exec_mut" => "/db/usr1/db1/exec_mut",
+        "admin-exec" => "/admin/db/usr1/db1/exec",
+        _ => "/admin/db/usr1/db1/exec_mut",
+    };
+    let label: Vec<&str> = item.batch.iter().map(|i| alpha[*i].0).collect();
+    Req::new(caller, "POST", uri, Some(serde_json::to_value(&qs).unwrap()), &format!("{}[{}]", item.endpoint, label.join(",")))
+}
+
+fn user_of(caller: &str) -> &str {
+    caller
+}
+
+struct Found {
+    signature: String,
+    what: String,
+}
+
+#[derive(Default)]
+struct Stats {
+    sequences: AtomicU64,
+    requests: AtomicU64,
+    applied: AtomicU64,
+    failed: AtomicU64,
+    failed_with_mutation_before_failure: AtomicU64,
+    reference_ok_server_refused: AtomicU64,
+}
+
+fn db_entry(obs: &Value) -> Value {
+    obs["dbs"].as_array().and_then(|a| a.iter().find(|d| d["owner"] == "usr1" && d["db"] == "db1")).cloned().unwrap_or(Value::Null)
+}
+
+fn queries_of(req: &Req) -> Vec<QueryType> {
+    req.body.as_ref().and_then(|b| serde_json::from_value::<Queries>(b.clone()).ok()).map(|q| q.0).unwrap_or_default()
+}
+
+fn run_sequence(lab: &mut Lab, base: &Base, seq: &[Req], stats: Option<&Stats>, states: Option<&DistinctCounter>, outcomes: Option<&DistinctCounter>) -> (Vec<Found>, Vec<String>) {
+    lab.reset(base);
+    if let Some(s) = stats {
+        s.sequences.fetch_add(1, Ordering::Relaxed);
+    }
+    let mut found = vec![];
+    let mut transcript = vec![];
+    let mut reference = RefDb::new();
+    if let Err(e) = reference.apply(&initial_queries()) {
+        engine::machinery_failure(&format!("reference set-up: {e}"));
+    }
+    let mut before = db_entry(&lab.observe());
+    if before["dump"] != reference.dump() {
+        engine::machinery_failure(&format!("the reference database does not reproduce the base world: {} vs {}", before["dump"], reference.dump()));
+    }
+    for req in seq {
+        let queries = queries_of(req);
+        let resp = lab.call(base, req);
+        let after = db_entry(&lab.observe());
+        let endpoint = req.op.split('[').next().unwrap_or("?").to_string();
+        // what the reference says
+        let mut trial = reference.copy();
+        let ref_result = trial.apply(&queries);
+        // position/kind of the first failing query according to the reference
+        let mut failing = "none";
+        let mut mutated_before = "none";
+        if ref_result.is_err() {
+            for (i, q) in queries.iter().enumerate() {
+                // the shortest failing prefix
+                let mut p = reference.copy();
+                if p.apply(&queries[..=i]).is_err() {
+                    failing = kind_of(q);
+                    break;
+                }
+                if is_mutating(q) && mutated_before == "none" {
+                    mutated_before = kind_of(q);
+                }
+            }
+        }
+        if let Some(s) = stats {
+            s.requests.fetch_add(1, Ordering::Relaxed);
+            if resp.ok() {
+                s.applied.fetch_add(1, Ordering::Relaxed);
+            } else {
+                s.failed.fetch_add(1, Ordering::Relaxed);
+                if mutated_before != "none" {
+                    s.failed_with_mutation_before_failure.fetch_add(1, Ordering::Relaxed);
+                }
+                if ref_result.is_ok() {
+                    s.reference_ok_server_refused.fetch_add(1, Ordering::Relaxed);
+                }
+            }
+        }
+        let sig = |clause: &str| format!("c25|ep={endpoint}|clause={clause}|status={}|mutated_before={mutated_before}|failing={failing}", resp.status);
+        let ctx = format!("request {} {} answered {} {}", req.caller, req.op, resp.status, engine::normalise(&resp.text()));
+        transcript.push(format!("{} {} -> {} dump={:016x} audit_len={}", req.caller, req.op, resp.status, engine::fnv(after["dump"].to_string().as_bytes()), after["audit"].as_array().map(|a| a.len()).unwrap_or(0)));
+        if let Some(s) = states {
+            s.insert(format!("{}|{}", after["dump"], after["audit"]).as_bytes());
+        }
+        if let Some(o) = outcomes {
+            o.insert(format!("{}|{}|{}", req.op, resp.status, after["dump"]).as_bytes());
+        }
+        if after.is_null() || after["dump"].get("error").is_some() {
+            found.push(Found { signature: sig("db-unreadable"), what: format!("{ctx}; afterwards the database cannot be read: {}", after["dump"]) });
+            break;
+        }
+        if !resp.ok() {
+            if after["dump"] != before["dump"] {
+                found.push(Found { signature: sig("failed-batch-changed-db"), what: format!("{ctx}; the batch failed but the database content changed: before {} after {}", before["dump"], after["dump"]) });
+            }
+            if after["audit"] != before["audit"] {
+                found.push(Found { signature: sig("failed-batch-audited"), what: format!("{ctx}; the batch failed but the audit log changed: before {} after {}", before["audit"], after["audit"]) });
+            }
+        } else {
+            match ref_result {
+                Err(e) => {
+                    found.push(Found { signature: sig("applied-although-a-query-fails"), what: format!("{ctx}; the reference cannot apply the batch ({e}) yet the server reports success") });
+                }
+                Ok(_) => {
+                    reference = trial;
+                    let want = reference.dump();
+                    if after["dump"] != want {
+                        found.push(Found { signature: sig("content"), what: format!("{ctx}; content after the applied batch differs from applying its queries in order: server {} reference {}", after["dump"], want) });
+                    }
+                }
+            }
+            // audit: exactly the mutating queries, in order, by the caller
+            let old: Vec<Value> = before["audit"].as_array().cloned().unwrap_or_default();
+            let new: Vec<Value> = after["audit"].as_array().cloned().unwrap_or_default();
+            let expected: Vec<(&str, &str)> = queries.iter().filter(|q| is_mutating(q)).map(|q| (user_of(&req.caller), kind_of(q))).collect();
+            let grown_ok = new.len() == old.len() + expected.len() && new[..old.len().min(new.len())] == old[..];
+            let mut entries_ok = grown_ok;
+            if grown_ok {
+                for (e, (u, k)) in new[old.len()..].iter().zip(expected.iter()) {
+                    let kind = e["query"].as_object().and_then(|o| o.keys().next().cloned()).unwrap_or_default();
+                    if e["user"] != *u || kind != *k {
+                        entries_ok = false;
+                    }
+                }
+            }
+            if !entries_ok {
+                found.push(Found {
+                    signature: sig("audit"),
+                    what: format!("{ctx}; the audit log should have grown by {expected:?} (user, query kind) but went from {} to {}", before["audit"], after["audit"]),
+                });
+            }
+        }
+        before = after;
+        if !lab.alive() {
+            break;
+        }
+    }
+    (found, transcript)
+}
+
+fn seq_json(base: &Base, seq: &[Req]) -> Value {
+    json!({"base": base.name, "requests": reqs_to_json(seq)})
+}
+
+pub(crate) fn run(args: &Args) -> i32 {
+    let report = Report::new(args, "model_checking");
+    let base = base_world();
+    let pool = vec![("usr1".to_string(), "db1".to_string())];
+    let alpha = query_alphabet();
+
+    if let Some(path) = &args.replay {
+        let doc = crate::vh::world::replay_doc(path);
+        let seq = reqs_from_json(&doc["requests"]);
+        let mut lab = Lab::new("c25r", true, &pool);
+        let (found, transcript) = run_sequence(&mut lab, &base, &seq, None, None, None);
+        for t in &transcript {
+            println!("replay: {t}");
+        }
+        for f in found {
+            report.violation(&f.signature, &f.what, seq_json(&base, &seq));
+        }
+        report.set("states", json!(1));
+        report.set("transitions", json!(transcript.len().max(1)));
+        report.set("traces_validated_against_impl", json!(1));
+        report.sample(json!({"replayed": transcript}));
+        return report.finish();
+    }
+
+    let max_len = args.tier.pick(2, 3);
+    let bs = batches(alpha.len(), max_len);
+    let mut first: Vec<Item> = vec![];
+    for ep in ["exec", "exec_mut"] {
+        for b in &bs {
+            first.push(Item { endpoint: ep, batch: b.clone() });
+        }
+    }
+    let mut second = first.clone();
+    if args.tier == Tier::Thorough {
+        // second request also through the admin endpoints, batches of <= 2 queries
+        for ep in ["admin-exec", "admin-exec_mut"] {
+            for b in bs.iter().filter(|b| b.len() <= 2) {
+                second.push(Item { endpoint: ep, batch: b.clone() });
+            }
+        }
+    }
+    // work items: one per first request (runs the length-1 sequence and all its extensions)
+    let stats = Stats::default();
+    let states = DistinctCounter::default();
+    let outcomes = DistinctCounter::default();
+    let candidates: std::sync::Mutex<Vec<(Vec<Req>, Vec<Found>, Vec<String>)>> = std::sync::Mutex::new(vec![]);
+    let w = engine::workers();
+    let labs: Vec<std::sync::Mutex<Lab>> = (0..w).map(|_| std::sync::Mutex::new(Lab::new("c25", false, &pool))).collect();
+    engine::par_for(first.len(), args.seed, |wi, i| {
+        let mut lab = labs[wi].lock().unwrap();
+        let r1 = make_req("usr1", &first[i], &alpha);
+        let mut todo: Vec<Vec<Req>> = vec![vec![r1.clone()]];
+        for it in &second {
+            let caller = if it.endpoint.starts_with("admin") { "admin" } else { "usr2" };
+            todo.push(vec![r1.clone(), make_req(caller, it, &alpha)]);
+        }
+        for (n, seq) in todo.iter().enumerate() {
+            let (found, transcript) = run_sequence(&mut lab, &base, seq, Some(&stats), Some(&states), Some(&outcomes));
+            if i == first.len() / 2 + 9 && (n == 30 || n == 75) {
+                report.sample(json!({"sequence": reqs_to_json(seq), "transcript": transcript}));
+            }
+            if !found.is_empty() {
+                candidates.lock().unwrap().push((seq.clone(), found, transcript));
+            }
+        }
+    });
+    report.set("profile", Lab::profile(&labs));
+    drop(labs);
+
+    let mut cands = candidates.into_inner().unwrap();
+    cands.sort_by_key(|c| (c.0.len(), reqs_to_json(&c.0).to_string().len(), reqs_to_json(&c.0).to_string()));
+    let mut confirmed: BTreeSet<String> = BTreeSet::new();
+    let mut lab = Lab::new("c25c", true, &pool);
+    let mut replays = 0u64;
+    for (seq, found, transcript) in &cands {
+        if found.iter().any(|f| !confirmed.contains(&f.signature)) {
+            for round in 0..2 {
+                let (f2, t2) = run_sequence(&mut lab, &base, seq, None, None, None);
+                replays += 1;
+                let sigs = |v: &Vec<Found>| v.iter().map(|f| f.signature.clone()).collect::<Vec<_>>();
+                if &t2 != transcript || sigs(&f2) != sigs(found) {
+                    engine::machinery_failure(&format!("C25 case does not reproduce on a freshly started server (round {round}): {}\n  explored: {transcript:?}\n  replayed: {t2:?}", reqs_to_json(seq)));
+                }
+            }
+            for f in found {
+                confirmed.insert(f.signature.clone());
+            }
+        }
+        for f in found {
+            report.violation(&f.signature, &f.what, seq_json(&base, seq));
+        }
+    }
+
+    report.set("states", json!(states.len()));
+    report.set("transitions", json!(stats.requests.load(Ordering::Relaxed)));
+    report.set("traces_validated_against_impl", json!(stats.sequences.load(Ordering::Relaxed)));
+    report.set("max_queries_per_batch", json!(max_len));
+    report.set("query_alphabet", json!(alpha.iter().map(|a| a.0).collect::<Vec<_>>()));
+    report.set("batches", json!(bs.len()));
+    report.set("first_requests", json!(first.len()));
+    report.set("second_requests", json!(second.len()));
+    report.set("batches_applied_2xx", json!(stats.applied.load(Ordering::Relaxed)));
+    report.set("batches_failed", json!(stats.failed.load(Ordering::Relaxed)));
+    report.set("failed_batches_with_a_mutation_before_the_failing_query", json!(stats.failed_with_mutation_before_failure.load(Ordering::Relaxed)));
+    report.set("refused_although_reference_applies", json!(stats.reference_ok_server_refused.load(Ordering::Relaxed)));
+    report.set("distinct_outcomes", json!(outcomes.len()));
+    report.set("violating_sequences", json!(cands.len()));
+    report.set("confirmation_replays_on_fresh_server", json!(replays));
+    report.set("exhaustive", json!(true));
+    report.set("what", json!("every batch of <= max_queries_per_batch queries over the alphabet through exec and exec_mut, every sequence of <= 2 such requests; states = distinct (content, audit log) of the database; transitions = requests executed"));
+    report.assume("database content is compared through a complete dump (all elements with values, aliases, indexes, node count); the reference for content is agdb's own DbMemory (C25 is not about the query engine)");
+    report.assume("audit entries are compared by user and query kind, in order (the server records queries after result injection; timestamps ignored)");
+    report.finish()
 }
